@@ -29,7 +29,7 @@ def run_oracle(prop, payload, timeout=600):
 class Result(object):
     def __init__(self):
         self.obls = []; self.errors = []; self.functions = []; self.mutants = []; self.notes = []
-        self.crosscheck = None; self.bounded = []; self.violations = []; self.known = []; self.undecided = []
+        self.conformance = None; self.crosscheck = None; self.bounded = []; self.violations = []; self.known = []; self.undecided = []
 
 def sanitize(name):
     return re.sub(r'[^A-Za-z0-9_.-]+', '_', name)
@@ -215,6 +215,16 @@ def main(argv=None):
         for name, ok in mod.covers():
             if not ok: res.errors.append('cover failed (vacuous precondition?): ' + name)
     t_m = time.time(); run_mutants(prop, mod, res); res.notes.append('phase seconds: contracts+discharge %.1f, self-test mutants %.1f' % (t_m - t0, time.time() - t_m))
+    # 3b. conformance of the executor with CPython on literal inputs (engine self-test; a disagreement makes the engine untrustworthy)
+    try:
+        from . import conformance
+        conf = conformance.run(n_per_case=(2 if tier == 'quick' else 12), seed=seed)
+        res.conformance = dict(snippets=conf['cases'], runs=conf['runs'], disagreements=conf['disagreements'][:5], rejected_as_unsupported=len(conf['unsupported']), seconds=conf['seconds'])
+        for d_ in conf['disagreements'][:3]:
+            res.errors.append('executor/CPython disagreement on %s%s: %s' % (d_['snippet'], d_['inputs'], d_['detail'][:200]))
+        if conf['runs'] - len(conf['unsupported']) < 50: res.errors.append('conformance self-test ran too few cases')
+    except Exception as e:
+        res.errors.append('conformance self-test crashed: %s' % e)
     t_o = time.time()
     # 4. CPython cross-check / bounded stand-ins through the oracle (real code)
     cross = None
@@ -301,6 +311,7 @@ def write_evidence(prop, mod, res, tier, seed, wall):
             functions_under_contract=res.functions,
             self_test_mutants=dict(applied=len(res.mutants), killed=sum(1 for m in res.mutants if m['status'].startswith('killed')), detail=res.mutants),
             cpython_crosscheck=res.crosscheck,
+            executor_conformance=res.conformance,
             bounded=getattr(mod, 'BOUNDED', []),
             known_findings=[dict(id=k['id'], what=k['what'], obligation=(o.name if o else None)) for k, o in res.known],
             not_decided=getattr(mod, 'NOT_DECIDED', []),
